@@ -55,6 +55,7 @@ type Sim struct {
 	Trace    func(string) // optional debug log; must not draw or read real clocks
 	nG       int64
 	all      map[string]*G
+	clocks   map[string]*nodeClock // per-server clock rates (clock.go)
 }
 
 // Active is the running simulation, nil for pass-through.
